@@ -11,6 +11,7 @@ sub-checks
                   5- and 6-key graphs, each in EVERY keyword order, with and without shadowed old values
 """
 import itertools
+import os
 
 from hypothesis import strategies as st
 
@@ -82,19 +83,24 @@ _U_OPS = ['+', '|', '-', '&']
 
 @st.composite
 def _ulist_case(draw):
-    npool = draw(st.integers(1, 7))
+    npool = draw(st.integers(2, 8))
     pool = draw(st.lists(_U_ELEM, min_size=npool, max_size=npool))
-    idx = st.integers(0, npool - 1)
-    init = draw(st.lists(idx, max_size=9))
-    ctor = draw(st.sampled_from(['list', 'list', 'tuple', 'ulist', 'noarg' if not init else 'list']))
+    # the initial list draws from the first m pool entries, so that elements outside it exist as well
+    m = draw(st.integers(max(1, npool - 4), npool))
+    inside = st.integers(0, m - 1)
+    anywhere = st.integers(0, npool - 1)
+    init = [draw(inside) for _ in range(draw(st.sampled_from([0, 1, 2, 3, 4, 4, 5, 6, 7, 9])))]
+    ctor = draw(st.sampled_from(['list', 'list', 'tuple', 'ulist'])) if init else draw(st.sampled_from(['list', 'noarg', 'tuple']))
     ops = []
-    for _ in range(draw(st.integers(1, 3))):
+    for _ in range(draw(st.sampled_from([1, 1, 2, 3]))):
         op = draw(st.sampled_from(_U_OPS))
         kind = draw(st.sampled_from(['elem', 'list', 'list', 'ulist']))
         if kind == 'elem':
-            ops.append([op, kind, draw(idx)])
+            ops.append([op, kind, draw(st.one_of(inside, anywhere))])
         else:
-            ops.append([op, kind, draw(st.lists(idx, max_size=7))])
+            # some members, some strangers, repeats allowed, any order
+            xs = [draw(inside) for _ in range(draw(st.sampled_from([0, 1, 1, 2, 2, 3, 4])))] + [draw(anywhere) for _ in range(draw(st.sampled_from([0, 0, 1, 1, 2, 3])))]
+            ops.append([op, kind, list(draw(st.permutations(xs)))])
     return dict(pool=pool, init=init, ctor=ctor, ops=ops)
 
 
@@ -243,30 +249,41 @@ def _mapping_case(draw):
         nrows = None
         items = [[k, draw(_FLAT)] for k in keys]
         opname = draw(st.sampled_from(['sub1', 'subl', 'and1', 'andl', 'getl', 'gett', 'add', 'add', 'relabel', 'relabel', 'attr']))
-    anykey = st.sampled_from(keys + absent)
+    def selection(lo=0, unique=False):
+        """keys chosen by construction: some present, some absent, in any order, optionally with a repeat"""
+        mode = draw(st.sampled_from(['present', 'present', 'mixed', 'mixed', 'mixed', 'absent', 'any']))
+        n_in = 0 if mode == 'absent' else draw(st.integers(0 if mode == 'any' else 1, 3))
+        n_out = 0 if mode == 'present' else draw(st.integers(0 if mode == 'any' else 1, 2))
+        sel = list(draw(st.permutations(keys))[:n_in]) + list(draw(st.permutations(absent))[:n_out])
+        if sel and not unique and draw(st.integers(0, 4)) == 0:
+            sel.append(sel[draw(st.integers(0, len(sel) - 1))])
+        sel = list(draw(st.permutations(sel)))
+        if len(sel) < lo:
+            sel = sel + list(draw(st.permutations(keys + absent))[:lo - len(sel)])
+        return sel
+
+    def onekey():
+        return draw(st.sampled_from(keys)) if keys and draw(st.booleans()) else draw(st.sampled_from(absent))
+
     op = dict(name=opname)
     if opname in ('sub1', 'and1'):
-        op['key'] = draw(anykey)
+        op['key'] = onekey()
     elif opname in ('subl', 'andl', 'getl', 'gett'):
-        mode = draw(st.sampled_from(['present', 'present', 'mixed', 'mixed', 'absent']))
-        src = keys if (mode == 'present' and keys) else absent if mode == 'absent' else keys + absent
-        lo = 1 if opname in ('gett', 'getl') else 0
-        sel = draw(st.lists(st.sampled_from(src), min_size=lo, max_size=4))
-        op['keys'] = sel
+        op['keys'] = selection(lo=1 if opname in ('gett', 'getl') else 0)
     elif opname == 'add':
-        okeys = draw(st.lists(anykey, max_size=4, unique=True))
+        okeys = selection(unique=True)
         op['other'] = [[k, draw(_FLAT)] for k in okeys]
         op['other_cls'] = draw(st.sampled_from(['dict', 'dictattr', 'Dict'] if cls in _DICT_FAMILY else ['dict', 'dictattr', 'Dict', 'AttrSub', 'DictSub']))
     elif opname == 'attr':
-        op['probe'] = draw(st.lists(anykey, min_size=1, max_size=4, unique=True))
-        op['set'] = [draw(anykey), draw(_FLAT)]
-        op['del'] = draw(anykey)
+        op['probe'] = selection(lo=1, unique=True)
+        op['set'] = [onekey(), draw(_FLAT)]
+        op['del'] = onekey()
     elif opname == 'relabel':
         forms = ['kw', 'kw', 'dict', 'prefix', 'suffix', 'callable'] + (['list', 'args'] if len(keys) >= 2 else [])
         form = draw(st.sampled_from(forms))
         op['form'] = form
         if form in ('kw', 'dict'):
-            olds = draw(st.lists(anykey, max_size=4, unique=True))
+            olds = selection(unique=True)
             targets = list(draw(st.permutations(_NEW + _KEYS[:4]))[:len(olds)])
             mapping = dict(zip(olds, targets))
             # no colliding final names, by construction: a colliding target is replaced by a fresh name
@@ -331,8 +348,8 @@ def _is_known_and(spec):
 
 KNOWN = {'c16.dictable_and_no_overlap': _is_known_and}
 
-# the generator leaves the known class out by construction; flip to False (or fix pyg_base) to see it
-EXCLUDE_KNOWN_BY_CONSTRUCTION = True
+# the generator leaves the known class out by construction; PV_C16_INCLUDE_KNOWN=1 puts it back (to re-find it / after a fix in pyg_base)
+EXCLUDE_KNOWN_BY_CONSTRUCTION = os.environ.get('PV_C16_INCLUDE_KNOWN', '') != '1'
 
 
 def _mapping_strategy(tier):
@@ -813,15 +830,16 @@ SUBS = [
              'pool elements, then a chain of 1-3 operations + | - & with a single pool element, a list (<= 7, repeats allowed) or a ulist; after every step: '
              'result is a ulist, duplicate-free, equal to the ordered-set model (first-occurrence order), both operands untouched. '
              'non-trivial = some list/ulist operand overlaps the current ulist partially and (operand or initial list) has repeated elements',
-        floor=0.3, class_floors={'dup_in_operand': 0.2, 'overlap=partial': 0.3, 'elem_present': 0.1, 'elem_absent': 0.03,
-                                 'op&': 0.2, 'op-': 0.2, 'op+': 0.2, 'op|': 0.2, 'kind=ulist': 0.1}),
+        floor=0.12, class_floors={'dup_in_operand': 0.2, 'overlap=partial': 0.2, 'elem_present': 0.1, 'elem_absent': 0.05,
+                                  'op&': 0.2, 'op-': 0.2, 'op+': 0.2, 'op|': 0.2, 'kind=ulist': 0.1, 'equal_across_types': 0.005}),
     Sub('mapping_ops', _mapping_strategy, run_mapping_ops, quick=5000, thorough=30000,
         rule='mapping of class dictattr / Dict / local subclass of each / dictable with 0-5 string keys and flat values; one operation: d - key, d - [keys], '
              'd & key, d & [keys], d[[keys]], d[k1, k2], d + other, relabel (keyword, dict, prefix, suffix, callable, full list, *names), attribute get/set/del; '
              'selections present / absent / mixed; oracle: plain dict model, type(result) is type(d), result is not d, exact keys (ordered for - and &), '
              'type-strict equal values, d and the right operand unchanged. non-trivial = >= 2 keys and a selection / update / relabel that hits some but not all keys',
-        floor=0.25, class_floors={'cls=dictable': 0.1, 'cls=AttrSub': 0.1, 'cls=DictSub': 0.1, 'sel=mixed': 0.1, 'sel=absent': 0.03, 'op=add': 0.08,
-                                  'op=relabel': 0.1, 'op=gett': 0.04, 'op=attr': 0.04}),
+        floor=0.25, class_floors={'cls=dictable': 0.1, 'cls=AttrSub': 0.1, 'cls=DictSub': 0.1, 'sel=mixed': 0.08, 'sel=absent': 0.05, 'op=add': 0.08,
+                                  'add_overlap=some': 0.03, 'op=relabel': 0.08, 'relabel=list': 0.004, 'relabel=callable': 0.008, 'op=gett': 0.04,
+                                  'op=attr': 0.02}),
     Sub('call_graph', lambda tier: _call_case(tier), run_call, quick=2500, thorough=12000,
         rule='Dict / subclass with 0-4 base keys; keywords = 1-6 callable (derived) keys whose parameters name base keys, plain keywords or other derived keys '
              '(random dag over a hidden rank order; 1 in 4 gets 1-2 back edges, no self-loops; 1 in 4 derived names also has an old value in d) plus 0-2 plain keywords; '
